@@ -97,6 +97,8 @@ type Profile struct {
 	PResize            float64
 	FixedWidth         int
 	PrioAfterFinish    bool // allow priority changes on finished bars (see finding F8)
+	PReaders           float64 // extra clients polling getters of bars added up front
+	PRacer             float64 // an extra client aborting another client's bar
 	NoSpinner          bool
 	StrategyW          [4]int // random, rtb, pct, starve
 }
@@ -367,6 +369,33 @@ func GenBase(r *Rand, p *Profile) *h.Scenario {
 		sc.Clients[ci] = ops
 	}
 	sortInts(sc.Initial)
+	// readers: poll getters of bars that exist before the clients start, through
+	// completion, shutdown and beyond
+	if len(sc.Initial) > 0 && r.Bool(p.PReaders) {
+		for n := r.Range(1, 2); n > 0; n-- {
+			var ops []h.Op
+			for k, m := 0, r.Range(3, 14); k < m; k++ {
+				b := sc.Initial[r.Intn(len(sc.Initial))]
+				ops = append(ops, h.Op{K: []int{h.OpCurrent, h.OpCompleted, h.OpAborted, h.OpPair, h.OpPairAC, h.OpIsRunning, h.OpID}[r.Intn(7)], Bar: b})
+				if r.Bool(0.4) {
+					ops = append(ops, h.Op{K: h.OpSleep, D: []int64{1e3, 1e6, 2e7, 2e8}[r.Intn(4)]})
+				}
+			}
+			sc.Clients = append(sc.Clients, ops)
+		}
+	}
+	if len(sc.Initial) > 0 && r.Bool(p.PRacer) {
+		var ops []h.Op
+		if r.Bool(0.5) {
+			ops = append(ops, h.Op{K: h.OpSleep, D: []int64{1e3, 1e6, 2e7}[r.Intn(3)]})
+		}
+		b := sc.Initial[r.Intn(len(sc.Initial))]
+		ops = append(ops, h.Op{K: h.OpAbort, Bar: b, Flag: r.Bool(p.PDropOnAbort)})
+		if r.Bool(0.5) {
+			ops = append(ops, h.Op{K: h.OpPair, Bar: b})
+		}
+		sc.Clients = append(sc.Clients, ops)
+	}
 	// manual refresher client
 	if c.Refresh == h.RefManual && r.Bool(p.PManualRefresher) {
 		var ops []h.Op
